@@ -12,8 +12,8 @@
 (* Named deviations (what the pinned tree does instead of Sass):            *)
 (*   andor_same_level   `and`/`or` share one right-recursive level          *)
 (*   eqrel_same_level   == != share the level of < <= > >=                  *)
-(*   not_only_bool_num  `not` is only evaluated on booleans and numbers,    *)
-(*                      and `not 0` is true                                 *)
+(*   not_only_bool_num  `not` is only evaluated on booleans and numbers      *)
+(*   not_zero_true      `not 0` is true (numbers treated like C booleans)    *)
 (***************************************************************************)
 EXTENDS Integers, Sequences, FiniteSets, TLC
 
@@ -116,10 +116,8 @@ SameVal(x, y) ==
   ELSE Bool(x.k = y.k /\ x.v = y.v)
 
 Not(v, Dev) ==
-  IF "not_only_bool_num" \in Dev
-  THEN CASE v.k = "b" -> Bool(v.v = 0)
-         [] v.k = "n" -> Bool(v.v = 0)
-         [] OTHER     -> Undef
+  IF v.k = "n" /\ "not_zero_true" \in Dev THEN Bool(v.v = 0)
+  ELSE IF "not_only_bool_num" \in Dev /\ v.k \notin {"b", "n"} THEN Undef
   ELSE Bool(~Truthy(v))
 
 RECURSIVE Eval(_, _)
@@ -161,7 +159,7 @@ Observe(toks, Dev) ==
   ELSE IF r.val.k = "err" THEN [val |-> Err, fx |-> 0]
   ELSE r
 
-AllDevs == {"andor_same_level", "eqrel_same_level", "not_only_bool_num"}
+AllDevs == {"andor_same_level", "eqrel_same_level", "not_only_bool_num", "not_zero_true"}
 
 (* deviations whose observable differs from the ideal one on this input *)
 DevMap(toks) ==
